@@ -63,7 +63,12 @@ pub fn tokenize(text: &str) -> Tokenised {
     let mut cur: Option<(String, Vec<&str>, usize)> = None;
     let mut last_end = 0usize;
     for (start, line, next) in lines {
-        if line == "-" && (cur.is_some() || out.tokens.is_empty()) {
+        if line == "-" && cur.is_none() {
+            out.junk = true; // a dash before the first field is just junk
+            last_end = next;
+            continue;
+        }
+        if line == "-" {
             // block terminator
             if let Some((tag, parts, s)) = cur.take() {
                 out.tokens.push(finish(tag, parts, s, start));
